@@ -605,6 +605,7 @@ type Interp struct {
 	// evaluation comes within two orders of magnitude of the default.
 	Deadline time.Time
 	LastIfaceType types.Type
+	anyTableLen   bool
 	InitFuel int // fuel for the evaluation of a package initialiser (0: the default)
 	// DerivedTables: cells of package-level tables that only their initialiser writes read as the
 	// constants it stores - except the tables named in ReadOnlyTables / SymbolicGlobals, which the
@@ -775,6 +776,16 @@ func (it *Interp) putAgg(a AggV, path string, v Value) {
 
 // load reads a value of type t at obj/path.
 func (it *Interp) load(st *state, p Ptr, t types.Type) Value {
+	if p.Sym != nil && p.Sym.mux {
+		// an element of a table of structs at a symbolic index: field by field
+		if stt, isStruct := t.Underlying().(*types.Struct); isStruct {
+			a := AggV{Cells: map[string]Value{}}
+			for i := 0; i < stt.NumFields(); i++ {
+				it.putAgg(a, "."+stt.Field(i).Name(), it.load(st, Ptr{Obj: p.Obj, Path: p.Path + "." + stt.Field(i).Name(), Sym: p.Sym}, stt.Field(i).Type()))
+			}
+			return a
+		}
+	}
 	if p.Sym != nil && p.Sym.mux {
 		w, sg, ok := typeWidth(t)
 		if !ok {
@@ -1740,7 +1751,12 @@ func (it *Interp) step(st *state, ins ssa.Instruction, depth int) {
 				// a table the package initialiser filled with constants and nothing else writes (a
 				// derived lookup table): the element at a symbolic index is the multiplexer over its entries
 				if cells := it.derivedTable(p.Obj); cells != nil {
-					if bits, ok := it.tableIndex(st, x); ok && len(bits) <= 8 {
+					// (a table whose length is not a power of two: an index past its end is a run-time panic,
+					// which the bounds obligations of E3 are about; here such an entry reads as zero)
+					it.anyTableLen = true
+					bits, ok := it.tableIndex(st, x)
+					it.anyTableLen = false
+					if ok && len(bits) <= 8 {
 						st.regs[x] = Ptr{Obj: p.Obj, Path: p.Path + "[?]", Sym: &symIdx{bits: bits, muxBase: p.Path, mux: true, cells: cells}}
 						return
 					}
@@ -1982,6 +1998,48 @@ func (it *Interp) step(st *state, ins ssa.Instruction, depth int) {
 			// a map with constant keys (a lookup table): present key -> its value, absent key -> zero value
 			k, okK := it.mapKey(it.val(st, x.Index))
 			mt, _ := x.X.Type().Underlying().(*types.Map)
+			if kb, isBV := it.val(st, x.Index).(BV); !okK && isBV && !kb.HasTop() && mt != nil && m.Obj != nil && len(st.mem[m.Obj]) <= 64 {
+				// an integer key that is not a constant, a small table with constant integer keys and
+				// integer values: the value is selected by comparing the key with every entry
+				if ew, esg, isInt := typeWidth(mt.Elem()); isInt {
+					res := it.constBV(0, ew)
+					res.Signed = esg
+					found := it.T.zero
+					okAll := true
+					for cell, v := range st.mem[m.Obj] {
+						var kv uint64
+						if _, err := fmt.Sscanf(cell, "k:i:%d", &kv); err != nil {
+							okAll = false
+							break
+						}
+						vb, isV := v.(BV)
+						if !isV || vb.W != ew {
+							okAll = false
+							break
+						}
+						eq := it.T.one
+						for b := 0; b < kb.W; b++ {
+							bit := kb.B[b]
+							if b >= 64 || kv>>uint(b)&1 == 0 {
+								bit = it.T.Not(bit)
+							}
+							eq = it.T.And(eq, bit)
+						}
+						found = it.T.Or(found, eq)
+						for b := 0; b < ew; b++ {
+							res.B[b] = it.T.Or(res.B[b], it.T.And(eq, vb.B[b]))
+						}
+					}
+					if okAll {
+						if x.CommaOk {
+							st.regs[x] = TupleV{res, BV{W: 1, B: []*Node{found}}}
+						} else {
+							st.regs[x] = res
+						}
+						return
+					}
+				}
+			}
 			if !okK || mt == nil {
 				it.unsup("lookup in a map with a key that is not a constant in %s", x.Parent().String())
 				st.regs[x] = OpaqueV{"lookup"}
@@ -3212,7 +3270,7 @@ func (it *Interp) tableIndex(st *state, x *ssa.IndexAddr) ([]*Node, bool) {
 	for 1<<uint(k) < n {
 		k++
 	}
-	if 1<<uint(k) != n {
+	if 1<<uint(k) != n && !it.anyTableLen {
 		return nil, false
 	}
 	idx, ok := it.val(st, x.Index).(BV)
